@@ -79,9 +79,14 @@ class CallGraph:
                 if fo and fo in self.table:
                     return set(self.table[fo]), "field %s.%s" % fo
                 if fo:
-                    # a function-pointer field never initialised inside the program:
-                    # user callback
-                    return {UNKNOWN}, "field %s.%s (no initialiser in program: user callback)" % fo
+                    # a function-pointer field never initialised with a constant: it is filled
+                    # from a parameter (callback); resolve by type over address-taken functions
+                    cands = {UNKNOWN}
+                    for name in self.addr_taken:
+                        f = self.mod.functions.get(name)
+                        if f is not None and f.fty == inst.d.get("fty"):
+                            cands.add(name)
+                    return cands, "field %s.%s (callback: by type)" % fo
         # by type over address-taken functions
         cands = set()
         for name in self.addr_taken:
